@@ -186,27 +186,29 @@ def specs_for(pid, tier, seed, fams_quick, fams_thorough, u_quick=6,
     q = tier == 'quick'
     out = []
     fams = fams_quick if q else fams_thorough
-    sizes_list = [(2, 2), (2, 3), (3, 2)] if q else \
-        [(2, 2), (2, 3), (3, 2), (3, 3), (2, 4)]
+    # (node sizes, keys in the universe, cap on expanded states)
+    if q:
+        settings = [((2, 2), u_quick, 4000), ((2, 3), u_quick, 4000),
+                    ((3, 2), u_quick, 4000)]
+    else:
+        settings = [((2, 2), u_thorough, 40000), ((2, 3), u_thorough, 40000),
+                    ((3, 2), u_thorough, 40000),
+                    ((3, 3), u_thorough + 1, 20000)]
     n = 0
     for fam in fams:
         for kind in kinds:
             for impl in impls:
-                # quick: one node-size setting per (family, kind, impl),
-                # rotating with the seed; thorough: all of them
-                for sz in ([sizes_list[(n + seed) % len(sizes_list)]] if q
-                           else sizes_list):
-                    u = u_quick if q else (
-                        u_thorough if sz in ((2, 2), (3, 2), (2, 3))
-                        else u_thorough + 1)
+                # quick: one setting per (family, kind, impl), rotating with
+                # the seed; thorough: all of them
+                for sz, u, cap in ([settings[(n + seed) % len(settings)]]
+                                   if q else settings):
                     out.append(dict(
                         label='explore-%s-%s-%s-%dx%d' % (fam, kind, impl,
                                                           sz[0], sz[1]),
                         explore=True, family=fam, kind=kind, impl=impl,
-                        sizes=list(sz), universe=u,
-                        max_states=4000 if q else 60000, seed=seed,
-                        tier=tier, variant='mon',
-                        timeout=1200 if q else 7200))
+                        sizes=list(sz), universe=u, max_states=cap,
+                        seed=seed, tier=tier, variant='mon',
+                        timeout=1200 if q else 10800))
                 n += 1
     return out
 
